@@ -83,12 +83,12 @@ def judge(res: Result, traces, raw, prefixes, pid: str):
 
 def run(tier: str) -> int:
     res = Result('C13', tier)
-    r = tlc.run_tlc('MonteCarlo', 'MC_MonteCarlo.cfg', workers=16, timeout=900)
+    r = tlc.run_tlc('MonteCarlo', 'MC_MonteCarlo.cfg', workers=16, timeout=2400)
     tlc.check_mc(r, 'MC_MonteCarlo.cfg', ['Fork', 'TaskStart', 'Draw', 'SimulateOk', 'SimulateFail', 'Acquire', 'AppendRow', 'Release'])
     if r['violated']:
         raise MachineryFailure(f'MonteCarlo.tla (repaired design) violates {r["violated"]}')
     res.add_mc(r, 'MC_MonteCarlo.cfg (3 workers, 4 tasks, 1 failing; safety + liveness)')
-    rp = tlc.run_tlc('MonteCarlo', 'MC_MonteCarlo_pinned.cfg', workers=8, timeout=300)
+    rp = tlc.run_tlc('MonteCarlo', 'MC_MonteCarlo_pinned.cfg', workers=8, timeout=2400)
     if rp['violated'] not in ('NoReplica', 'C13_distinct'):
         raise MachineryFailure('pinned design (workers inherit the RNG) no longer violates NoReplica/C13_distinct: vacuity guard')
     res.cov['pinned_design_counterexample'] = [s['header'][:40] for s in rp['trace']]
